@@ -245,13 +245,14 @@ def CompModel.get {G : Type} [RandGen G R] (m : CompModel R) (ctx : Ctx R) (q : 
     match ← liftE (rng.locals ctx q false) with
     | none => return old
     | some _ =>
-      if comps.contains n then do
-        -- as written: bounds `[0]` for every composition (composition/random.cc)
-        let a ← liftE (idx minValue 0)
-        let b ← liftE (idx maxValue 0)
+      match findComposition comps n with
+      | some i => do
+        -- bounds at the composition's own position (after the `fix:` commit; before it index 0 was used for every composition)
+        let a ← liftE (idx minValue i)
+        let b ← liftE (idx maxValue i)
         let c ← drawUniform a b
         return applyOp op old c
-      else if op == .replace then return 0.0 else return old
+      | none => if op == .replace then return 0.0 else return old
 
 inductive VelModel (R : Type)
   | uniformRaw (rng : DepthRange R) (op : Op) (v : P3 R) (localFirst : Bool)
